@@ -47,6 +47,9 @@ def jobs(tier):
     for restart in (0, 1):
         js.append({"id": f"O2.routing.calls{calls}.restart{restart}", "func": "VerifH_C15_Routing", "conf": {"calls": calls, "restart": restart, "nested": 0},
                    "_obligation": "O2", "_covers": ["configured"], "map_order": True, "unwind": 24})
+    for pre in ((1, 2) if tier == "quick" else (1, 2, 3)):
+        js.append({"id": f"O4.concurrent-failures.preempt{pre}", "func": "VerifH_C15_ConcurrentFailures", "conf": {"rounds": 3, "nested": 0, "preempt": pre},
+                   "_obligation": "O4", "_covers": ["quiescent"], "_schedule_replay": True, "unwind": 60})
     js.append({"id": "O3.receive", "func": "VerifH_C15_Receive", "conf": {"nested": 0}, "_obligation": "O3", "_covers": ["received"]})
     js.append({"id": "twin", "func": "VerifH_C15_Reach", "conf": {"nested": 0}, "_obligation": "vacuity", "_expect": "twin", "_covers": ["end"]})
     return js
